@@ -86,7 +86,8 @@ pub fn check(h: &History) -> CheckResult {
             Step::ChangeWrongOld { new_pw } => {
                 let wrong = format!("{}~", pw(cur));
                 // one time in three the new password is the wrong old one itself ("nothing to change" must not skip the unlock)
-                let newp = if *new_pw % 3 == 0 { wrong.clone() } else { pw(*new_pw).to_string() };
+                // ... and one time in three it is the key's current password (a rotation step run again with a stale old password)
+                let newp = if *new_pw % 3 == 0 { wrong.clone() } else if *new_pw % 3 == 1 { pw(cur).to_string() } else { pw(*new_pw).to_string() };
                 let r = keycmd(&sb, h.env_keyring, &["key", "change-pass", &locked, "--env-pass"]).env("KESTREL_PASSWORD", &wrong).env("KESTREL_NEW_PASSWORD", &newp).run();
                 outputs.extend_from_slice(&r.stdout); outputs.extend_from_slice(&r.stderr);
                 ensure!(r.code == Some(1) && !r.stdout_s().contains("PrivateKey"), "change-pass with a wrong old password: exit {:?}, stdout {:?}", r.code, r.stdout_s());
